@@ -17,6 +17,10 @@ def file_text(w, kind, ports):
         pools['db1'] = simple_pool([['127.0.0.1', ports['b1'], 'primary'], ['127.0.0.1', ports['b4'], 'replica']], pool_size=2)
     elif kind == 'R':
         pools['db1'] = simple_pool([['127.0.0.1', ports['b1'], 'replica'], ['127.0.0.1', ports['b4'], 'primary']], pool_size=2)
+    elif kind == 'P':
+        pools['db1'] = simple_pool([['127.0.0.1', ports['b1'], 'primary'], ['127.0.0.1', ports['b4'], 'replica']], pool_size=2)
+        pools['db1']['query_parser_enabled'] = True
+        pools['db1']['plugins'] = {'table_access': {'enabled': True, 'tables': ['guarded']}}
     elif kind == 'B':
         pools['db1'] = simple_pool([['127.0.0.1', ports['b3'], 'primary']], pool_size=2)
     elif kind == 'semantic_error':
@@ -129,6 +133,17 @@ def run_scenario(item):
                     recs.append({'ev': 'txstart', 'c': n, 'landed': be, 'reply': rep.brief()[:100]})
                     txconn[n] = conn
                 parked = []
+            elif op == 'probe':
+                c = client(st['c'])
+                if c is None or c.dead:
+                    recs.append({'ev': 'probe', 'c': st['c'], 'denied': False, 'landed': 'none', 'reply': 'connect refused'})
+                    continue
+                rep = c.query('SELECT * FROM guarded')
+                be, conn = landing(rep)
+                denied = any('permission for table' in (e.get('M') or '') for e in rep.errors)
+                recs.append({'ev': 'probe', 'c': st['c'], 'denied': denied, 'landed': be, 'reply': rep.brief()[:100]})
+                if rep.end != 'Z':
+                    c.dead = True
             elif op == 'txstart':
                 c = client(st['c'])
                 if c is None or c.dead:
@@ -202,7 +217,9 @@ def check_c14(prop, tier, seed):
             v.tool_error('Reload deviation %s not detected by the model' % d)
         else:
             v.extra.setdefault('model_negative_control', []).append('%s violates %s' % (d, r2.invariant_violated))
-    res = tlc.run_tlc('Gen_Reload', 'Gen_Reload.cfg', workers=8, timeout=900)
+    # random histories (the simulator also evaluates Emit on every candidate last step, so each behaviour yields several)
+    res = tlc.run_tlc('Gen_Reload', 'Gen_Reload.cfg', workers=1, simulate={'quick': 8000, 'thorough': 60000}[tier], depth=40,
+                      seed=seed, timeout=900)
     if res.rc != 0:
         v.tool_error('Gen_Reload rc=%d' % res.rc)
         return v.finish()
@@ -228,7 +245,7 @@ def check_c14(prop, tier, seed):
                 cur = x['f']
             elif x['op'] == 'reload':
                 f.append('reload:%s:%s' % (cur, 'intx' if intx else 'idle'))
-                if cur in ('A', 'B', 'R', 'absent') and cur != eff:
+                if cur in ('A', 'B', 'R', 'P', 'absent') and cur != eff:
                     eff = cur
                     if held:
                         f.append('held_across_change')
@@ -239,6 +256,8 @@ def check_c14(prop, tier, seed):
                 f.append('step_after_reload')
             elif x['op'] == 'txend':
                 intx.discard(x['c'])
+            elif x['op'] == 'probe':
+                f.append('probe:%s' % eff)
             elif x['op'] == 'park':
                 f.append('park')
                 held.add(x['c'])
@@ -247,7 +266,7 @@ def check_c14(prop, tier, seed):
                     f.append('held_across_reload')
                 held = set()
         return tuple(sorted(set(f)))
-    useful = [s for s in scen if any(x['op'] == 'reload' for x in s) and any(x['op'] in ('txstart', 'park') for x in s)
+    useful = [s for s in scen if any(x['op'] == 'reload' for x in s) and any(x['op'] in ('txstart', 'park', 'probe') for x in s)
               and (not any(x['op'] == 'park' for x in s) or any(x['op'] == 'resume' for x in s))]
     byf = {}
     for s in useful:
@@ -321,6 +340,6 @@ def check_c14(prop, tier, seed):
     for it, r in ok[:2]:
         v.add_sample({'steps': [(x['op'], x['c'], x['f']) for x in it['steps']], 'trace': r['recs'][:8]})
     v.cov['rule'] = ('histories = all sequences of length 6 over {write file (A, B, absent, syntax error, semantic error), reload, '
-                     'txstart/txstep/txend of 2 clients} (TLC, Gen_Reload); those with a reload and a transaction are stratified '
+                     'txstart/txstep/txend/probe of a guarded table/PAUSE-held starts of 2 clients} (tlc -simulate, seeded, Gen_Reload); those with a reload and a transaction are stratified '
                      'by (file at reload, transaction open or not, what follows) and replayed with RELOAD or SIGHUP; distinct = strata')
     return v.finish()
